@@ -485,4 +485,77 @@ func c04GenRandom(r *Rng) *c04Prog {
 	return p
 }
 
+// ---------------------------------------------------------------- fixed small configurations
+//
+// c04WindowProgs: 2 goroutines x 1-2 ops aimed at two windows, explored depth-first (every
+// schedule) by the scheduled binary in BOTH tiers, so that the windows are found
+// deterministically:
+//   (i)  Readdirnames on an open directory handle ‖ Rename of a child out of / into / within that
+//        directory (or of the directory itself): the listing must be one the directory had;
+//   (ii) OpenFile with O_TRUNC and/or O_APPEND (with and without O_CREATE) ‖ Create+Close, Write
+//        through another handle, Chtimes, Rename, Remove on the same name: the truncation / the
+//        offset must belong to the instant of the lookup or creation.
+func c04WindowProgs() []*c04Prog {
+	var out []*c04Prog
+	// (i)
+	dirSetup := func() []string {
+		st := []string{oMkdir("/d", 0o755)}
+		st = append(st, c04MkFile("/d/x", "ab")...)
+		st = append(st, c04MkFile("/f", "ff")...)
+		return append(st, oOpen(c04Slot(0, 0), "/d"))
+	}
+	names1 := c04Item(-1, "HReaddirnames %d 1", c04Slot(0, 0))
+	for _, rd := range [][]string{{hNames(c04Slot(0, 0))}, {hNames(c04Slot(0, 0)), hNames(c04Slot(0, 0))}, {names1, names1}} {
+		for _, mv := range [][]string{
+			{oRename("/d/x", "/g")},                        // out of the directory
+			{oRename("/f", "/d/y")},                        // into it
+			{oRename("/d/x", "/d/y")},                      // within it
+			{oRename("/d/x", "/g"), oRename("/f", "/d/x")}, // out, and another file in under the old name
+			{oRename("/d", "/g")},                          // the directory itself
+			{oRemove("/d/x")},
+		} {
+			out = append(out, &c04Prog{Focus: "window-readdirnames", Setup: dirSetup(), Threads: [][]string{rd, mv}})
+		}
+	}
+	// (ii)
+	const ap = os.O_APPEND
+	s0, s1 := c04Slot(0, 0), c04Slot(1, 0)
+	type other struct {
+		ops        []string
+		needsExist bool
+	}
+	others := []other{
+		{[]string{oCreate(s1, "/f"), hClose(s1)}, false},
+		{[]string{hWrite(s1+1, "WW")}, true}, // slot s1+1: opened on /f by the setup
+		{[]string{oChtimes("/f", 1000002000)}, false},
+		{[]string{oRename("/f", "/g")}, false},
+		{[]string{oRemove("/f")}, false},
+		{[]string{oChmod("/f", 0o400)}, false},
+	}
+	for _, fl := range []int{c04Trunc, os.O_WRONLY | os.O_TRUNC, c04CrTr, c04Create | os.O_TRUNC, c04Trunc | ap, c04CrTr | ap, os.O_RDWR | ap, c04Create | ap} {
+		for _, exists := range []bool{true, false} {
+			if !exists && fl&os.O_CREATE == 0 {
+				continue // OpenFile would only report not-exist
+			}
+			for _, o := range others {
+				if o.needsExist && !exists {
+					continue
+				}
+				p := &c04Prog{Focus: "window-openfile"}
+				if exists {
+					p.Setup = append(p.Setup, c04MkFile("/f", "abcd")...)
+					p.Setup = append(p.Setup, oOpenFile(s1+1, "/f", os.O_RDWR, 0))
+				}
+				th := []string{oOpenFile(s0, "/f", fl, 0o634)}
+				if fl&ap != 0 {
+					th = append(th, hWrite(s0, "N")) // shows the offset the handle got
+				}
+				p.Threads = [][]string{th, o.ops}
+				out = append(out, p)
+			}
+		}
+	}
+	return out
+}
+
 var _ = fmt.Sprint
